@@ -5,7 +5,7 @@
    [wf]: what the constructors of the library enforce (k >= 1, at least one candidate, k <= #candidates when distinct). *)
 From Coq Require Import Sorted.
 From PG Require Import Common.Tactics Model.Geno Proofs.GenoBasics Proofs.GenoValid Proofs.GenoSize
-  Proofs.GenoOrder Proofs.GenoNext Proofs.GenoIter Proofs.GenoExamples.
+  Proofs.GenoOrder Proofs.GenoNext Proofs.GenoIter Proofs.GenoRandom Proofs.GenoExamples.
 
 (* the set that is enumerated is precisely the set of decisions satisfying the constraints *)
 Theorem C11_valid_iff : forall s d, finite s = true -> (valid s d = true <-> In d (all_valid s)).
@@ -61,3 +61,14 @@ Print Assumptions C11_iter_exact.
 Theorem C11_sweeping_same : forall s fuel, sweeping s fuel None = iter s fuel.
 Proof. exact sweeping_same. Qed.
 Print Assumptions C11_sweeping_same.
+
+(* random generation returns a member, for every generator that meets the contract of random.Random the code
+   relies on (sample: k distinct indices below n; randint below n; uniform inside the range) *)
+Theorem C11_random_member :
+  forall (R : Type) (sample : nat -> nat -> R -> list nat * R) (randint : nat -> R -> nat * R) (uniform : flt -> flt -> R -> flt * R),
+  (forall n k r, k <= n -> length (fst (sample n k r)) = k /\ NoDup (fst (sample n k r)) /\ Forall (fun c => c < n) (fst (sample n k r))) ->
+  (forall n r, 1 <= n -> fst (randint n r) < n) ->
+  (forall lo hi r, (lo <= hi)%Z -> (lo <= fst (uniform lo hi r) <= hi)%Z) ->
+  forall s r, wf s = true -> valid s (fst (random_dna R sample randint uniform s r)) = true.
+Proof. exact random_member. Qed.
+Print Assumptions C11_random_member.
